@@ -62,12 +62,22 @@ func runC11(w *World, tier string) (bool, interface{}) {
 	fired := false
 	suite := bls12381.NewBLS12381Suite(nil)
 
+	suppressed := map[string]bool{}
+	c.Ops[D].Filter = func(o *types.Operation) bool { return !suppressed[o.ID] }
 	c.Ops[D].Tamper = func(op *types.Operation, result []byte) []byte {
 		var ro types.Operation
 		if json.Unmarshal(result, &ro) != nil {
 			return result
 		}
 		changed := false
+		if strings.HasSuffix(string(ro.Event), "canceled_by_error") {
+			// the deviating dealer's own machine (honest software here, fed by a deviating
+			// carrier) noticed the inconsistency first; a dealer who deviates on purpose does
+			// not report itself, so this report never leaves: the others have to notice
+			w.Stats.Probe("dealers-own-failure-report-suppressed")
+			suppressed[op.ID] = true
+			return nil
+		}
 		switch string(op.Type) {
 		case string(dpf.StateDkgCommitsAwaitConfirmations):
 			if !strings.HasPrefix(kind, "commitments-") || len(ro.ResultMsgs) != 1 {
@@ -371,6 +381,29 @@ func runC11(w *World, tier string) (bool, interface{}) {
 		if len(a.Panics) > 0 {
 			w.Fail("C11", "addressee-machine-crashes/"+kind, fmt.Sprintf("machine %d terminated with a fault instead of refusing the deviating contribution (%s): %s", i, kind, a.Panics[0]))
 			return true, nil
+		}
+	}
+	if kind == "response-with-complaint" {
+		// premise: the deviating message is one the others could act on. With the board
+		// going away in the middle of the dealer's own deals submission, its response can
+		// reach the board before some of its deals: nodes that still collect deals refuse a
+		// response as out of step, and for them the dealer has simply not answered - a
+		// silent participant stalls a round, which no property forbids (see DESIGN 11)
+		firstResp, lastDeal := -1, -1
+		for _, m := range w.Board.Msgs {
+			if m.DkgRoundID != round || m.SenderAddr != w.Nodes[D].Name || w.Board.Injected[m.Offset] != nil {
+				continue
+			}
+			if m.Event == string(dpf.EventDKGResponseConfirmationReceived) && firstResp < 0 {
+				firstResp = int(m.Offset)
+			}
+			if m.Event == string(dpf.EventDKGDealConfirmationReceived) {
+				lastDeal = int(m.Offset)
+			}
+		}
+		if firstResp >= 0 && firstResp < lastDeal {
+			w.Stats.Probe("deviating-response-posted-before-the-dealers-own-deals")
+			return false, "the deviating response reached the board before the dealer's deals were all there: nodes still collecting deals cannot act on it"
 		}
 	}
 	for _, i := range members {
